@@ -113,8 +113,9 @@ def _is_container_init(v):
     return False
 
 
-def reachable_functions(ctx, roots):
-    """top-level functions reachable from the roots through resolved calls (including nested helpers)"""
+def reachable_functions(ctx, roots, stop=None):
+    """top-level functions reachable from the roots through resolved calls (including nested helpers); with ``stop`` the
+    functions for which it answers True are not entered (nor reported)"""
     seen = {}
     work = list(roots)
     while work:
@@ -123,6 +124,8 @@ def reachable_functions(ctx, roots):
         while top.parent is not None:
             top = top.parent
         if top.qualname in seen:
+            continue
+        if stop is not None and stop(top):
             continue
         seen[top.qualname] = top
         units = [top]
